@@ -192,9 +192,9 @@ PROPS["C11"] = {
         "DECIDED PART ONLY: the expansion function.  EvalString::evaluate(envs) == ev::eval(parts, envs), the spec function written from the statement (first env that binds the name wins -- even if the value is empty --, the value's own references continue in the FOLLOWING envs only, an unbound name expands to the empty string), for every part list and every env list (envs are arbitrary `dyn Env`s characterised by the uninterpreted `binds`); Vars::get_var is proved against its definition of binds",
         "unit load: Loader::add_build's `lookup` closure is proved (closure postcondition) to return livax::attr -- an attribute bound on the build block is expanded against [file scope] only, otherwise the rule's binding against [$in/$out..., build block, file scope] -- and the in/out path lists are evaluated against [build block, file scope]; BuildImplicitVars::get_var/file_list are proved against implicit_binds/join ($in, $out, $in_newline, $out_newline over the explicit ins/outs); the two SmallMap environments inherit the trait contract (first entry whose key equals the name, via the TRUSTED SmallMap::get / as_cow stubs and per-type `binds` definitions and dynamic-dispatch axioms)",
         "unit scan: in Parser::read a file-level binding stores exactly the expansion of its value against [file scope as of that statement] (in-body assertion after Vars::insert; Vars' hash map is a trusted stub)",
-        "NOT decided: that subninja leaves the including scope untouched and Parser::inherit's copy (stub), `deps` attribute matching (string-literal patterns inside Some(..) have no Verus meaning).  KNOWN FINDING D9: load::parse_with_parser is under contract (unit load) and its include arm fails the clause `what the included file bound is bound afterwards` (include is treated like subninja)",
+        "unit load / scan: a child scope starts from every binding of the parent (Parser::inherit's body proved in unit scan, asserted at the call), a subninja's bindings never reach the parent, and what an included file bound is bound after the include statement (assertion at the end of the statement loop's body; D9, found by this assertion, is FIXED in /repo 3426d1d).  NOT decided: `deps` attribute matching (string-literal patterns inside Some(..) have no Verus meaning)",
         "R17: the external bound `T: AsRef<str>` is replaced by the local trait VxAsStr (as_ref -> vx_str) implemented for &str, String, Cow<str>; Cow's view is uninterpreted with one axiom for Cow::Borrowed; String::push_str / reserve carry trusted char-level specs; calc_evaluated_length (capacity hint) is a stub; the hash map behind Vars is a trusted stub",
-        "the Env impls for SmallMap<K, EvalString<..>> and SmallMap<&str, String> and BuildImplicitVars ($in/$out) are not under contract",
+        "Box::leak of an included file's text is a trusted wrapper (same bytes)",
     ],
 }
 
@@ -226,7 +226,7 @@ LEVEL_TEXT = {
     },
     "C11": {
         "text": "Unbounded proof (Verus) on the real text of eval.rs EvalString::{evaluate_inner, evaluate} and the Env impl of Vars: the expanded string equals the spec function ev::eval taken from the statement -- literals are copied, a reference is replaced by the expansion of the value found in the first env binding the name, that value being expanded against the envs AFTER that one only, and by nothing if no env binds it -- for all part lists and all lists of arbitrary environments; the mutual recursion terminates (decreases on the env list).",
-        "note": "Expansion function (unit eval) + add_build's scoping order, path env lists and $in/$out (unit load).  KNOWN-FINDING D9 printed on the unchanged tree (include does not extend the including scope).  Eager top-level expansion and 'every top-level definition (re)binds its name' are an in-body assertion and a loop invariant over a ghost list of definitions in Parser::read; Parser::inherit (child scopes start from every binding of the parent) is proved (unit scan).",
+        "note": "Expansion function (unit eval) + add_build's scoping order, path env lists and $in/$out (unit load).  D9 (include did not extend the including scope) was found by this contract and is fixed in /repo (3426d1d).  Eager top-level expansion and 'every top-level definition (re)binds its name' are an in-body assertion and a loop invariant over a ghost list of definitions in Parser::read; Parser::inherit (child scopes start from every binding of the parent) is proved (unit scan).",
         "design_ref": "DESIGN.md §6 C11",
     },
     "C17": {
